@@ -6,11 +6,38 @@ INSTRUMENT = ["internal/loadbalancer", "internal/circuitbreaker", "internal/rate
 CB = "internal/circuitbreaker"
 LB = "internal/loadbalancer"
 
+ENGINES = [
+    dict(name="S", path="engine/shim/vrt", serves_properties=["C07", "C08"],
+         kind_free_text="controlled cooperative scheduler + stateless replay DFS with preemption bounding over the real Helios code (sync/atomic/time/go/select rewritten onto shims by vgen)"),
+    dict(name="H", path="engine/shim/vh/hrun.go", serves_properties=["C07", "C08"],
+         kind_free_text="explicit-state breadth-first search over event histories of the real objects under a virtual clock, reflective state fingerprint for deduplication, reference-model / monitor oracle on every transition"),
+]
+
+NOT_APPLICABLE = {}
+
 CHECKS = {
     "C07": dict(
         level="model_checking",
+        engine="S+H",
+        technique="explicit-state BFS over event histories of the real breaker vs. a reference automaton + exhaustive preemption-bounded schedule exploration of concurrent Execute calls",
+        text="Every history of {success, failure, panic, three clock steps} up to the stated depth is replayed on the real CircuitBreaker (library level, 27 configurations) and through the real LoadBalancer.ServeHTTP with scripted backends (system level, all five strategies), and each step's admission, rejection status, backend contact and state is compared with a reference automaton of the property; all interleavings of 2-3 concurrent Execute calls at the open->half-open boundary are enumerated up to the preemption bound and the number of concurrently admitted trials is checked against max_requests.",
+        note="Virtual clock moves in steps that never land exactly on a deadline; instants older than the largest configured duration are merged in the state fingerprint (argument in the harness); backends are RoundTripper stubs under the real httputil.ReverseProxy; interleavings are explored at synchronisation operations only (sound if the code between them is race-free, which C12 checks).",
         jobs=[
             dict(name="c07s", part="S", pkg=CB, run="TestVerifC07S", mode="instr", shards=dict(quick=4, thorough=16)),
+            dict(name="c07sys", part="Sys", pkg=LB, run="TestVerifC07Sys", mode="instr", shards=dict(quick=13, thorough=16)),
+            dict(name="c07h", part="H", pkg=CB, run="TestVerifC07H", mode="instr", shards=dict(quick=9, thorough=14)),
+        ],
+        assumptions=[],
+    ),
+    "C08": dict(
+        level="model_checking",
+        engine="S+H",
+        technique="explicit-state BFS over breaker histories through the real config->Validate->NewLoadBalancer->ServeHTTP pipeline with a recovery probe from every reachable state + exhaustive preemption-bounded schedule exploration of concurrent state changes (deadlock verdict)",
+        text="For every breaker configuration of the menu that Validate accepts, every state reachable within the depth by {ok, 500, refused, aborted, clock steps} is a start state of a bounded recovery script (wait out the timeout, then only successful requests) that must end closed and admitting; all interleavings up to the preemption bound of 2-3 concurrent requests that trigger state changes (including panicking ones), with the balancer's real OnStateChange callback, must terminate (no enabled thread while one is blocked = deadlock).",
+        note="Same trusted base as C07; the recovery bound is success_threshold + max_requests + 2 requests after the timeout.",
+        jobs=[
+            dict(name="c08s", part="S", pkg=LB, run="TestVerifC08S", mode="instr", shards=dict(quick=15, thorough=16)),
+            dict(name="c08h", part="H", pkg=LB, run="TestVerifC08H", mode="instr", shards=dict(quick=16, thorough=16)),
         ],
         assumptions=[],
     ),
